@@ -1,6 +1,6 @@
 ------------------------------ MODULE Mempool ------------------------------
 (* Sequential model of internal/mempool/mempool.go (property C23), one action *)
-(* per public call (= one critical section under m.mu).                       *)
+(* per public call (= one critical section under m.mu), Top included.         *)
 (*                                                                            *)
 (* Shaped like the code: owned[sponsor] and pendingSize are maintained        *)
 (* incrementally exactly as add / popNext / Remove / SetMinTimestamp do,      *)
@@ -69,11 +69,12 @@ Pool == [rest |-> rest, fifo |-> fifo, owned |-> owned, psize |-> psize]
 (* reached in the resulting pool (= the outcomes of all processing orders; the pool only grows during an add).   *)
 SpCount(H, s) == Cardinality({i \in H : attr[i].sp = s})
 Cand(items, blocked) == {i \in SeqSet(items) : i \notin blocked /\ i \notin Held}
-Accepts(C, S) ==
+AcceptsIn(H, C, S) ==           \* H = ids in the pool the candidates C are added to
   /\ S \subseteq C
-  /\ Cardinality(Held \cup S) <= maxSize
-  /\ \A s \in Sponsors : SpCount(Held \cup S, s) <= maxSponsor
-  /\ \A d \in C \ S : Cardinality(Held \cup S) = maxSize \/ SpCount(Held \cup S, attr[d].sp) = maxSponsor
+  /\ Cardinality(H \cup S) <= maxSize
+  /\ \A s \in Sponsors : SpCount(H \cup S, s) <= maxSponsor
+  /\ \A d \in C \ S : Cardinality(H \cup S) = maxSize \/ SpCount(H \cup S, attr[d].sp) = maxSponsor
+Accepts(C, S) == AcceptsIn(Held, C, S)
 
 Put(p, i, front) ==      \* PushBack / PushFront + eh.Add + owned++ + pendingSize += Size
   [rest  |-> IF front THEN p.rest \cup {i} ELSE p.rest,
@@ -169,6 +170,33 @@ FinishStreaming(restorable, S) ==    \* streamedItems = nil; add(restorable, fro
         /\ SetPool(PutSet(Pool, S))
   /\ streaming' = FALSE /\ streamed' = {} /\ nextR' = {} /\ nextF' = <<>> /\ fetched' = FALSE
   /\ res' = NoRes /\ UNCHANGED cvars
+
+(* Mempool.Top(visitor): one critical section.  Items are popped one after the other - each the next item to   *)
+(* hand out of the pool as it then is - and shown to the visitor, which answers (continue?, give back?); the     *)
+(* loop ends when the visitor says stop or the pool is empty; afterwards the items to give back are re-added at  *)
+(* the front (add(restorable, true): refused only at a limit, blocked while in streamedItems).                   *)
+(*   visits : Seq([i : Items, restore : BOOLEAN]) in visiting order    stopped : the last visit answered "stop"  *)
+(*   S      : the given-back items that get in                                                                    *)
+PoolIds(p)      == p.rest \cup SeqSet(p.fifo)
+NextOf(p, i)    == IF p.rest # {} THEN i \in p.rest ELSE IF p.fifo = <<>> THEN FALSE ELSE i = Head(p.fifo)
+RECURSIVE HandOutOK(_, _)
+HandOutOK(p, out) == IF out = <<>> THEN TRUE ELSE NextOf(p, Head(out)) /\ HandOutOK(Drop(p, {Head(out)}), Tail(out))
+RECURSIVE PopAll(_, _)
+PopAll(p, out)  == IF out = <<>> THEN p ELSE PopAll(Drop(p, {Head(out)}), Tail(out))
+
+RECURSIVE VisitIds(_)
+VisitIds(v) == IF v = <<>> THEN <<>> ELSE <<Head(v).i>> \o VisitIds(Tail(v))
+
+Top(visits, stopped, S) ==
+  LET out  == VisitIds(visits)
+      p1   == PopAll(Pool, out)
+      back == {visits[k].i : k \in {m \in DOMAIN visits : visits[m].restore}}
+  IN /\ HandOutOK(Pool, out)                               \* in particular no item is visited twice in one pass
+     /\ stopped => visits # <<>>
+     /\ ~stopped => PoolIds(p1) = {}                       \* not stopped: ran until the pool was empty
+     /\ AcceptsIn(PoolIds(p1), (back \ (IF streaming THEN streamed ELSE {})) \ PoolIds(p1), S)
+     /\ SetPool(PutSet(p1, S))
+     /\ res' = R(TRUE, {}, out) /\ StreamUnch /\ UNCHANGED cvars
 
 (* ---- the statement ---- *)
 TypeOK ==
